@@ -125,6 +125,24 @@ fn main() {
     println(a.to_string());
 }
 `},
+	// the interpreter runs `event fn kill` once after a termination: the handler is part of the run,
+	// the wait still returns the termination
+	{Name: "infinite-loop-with-a-kill-handler", Infinite: true, TreeOK: true, Source: `event fn kill() {
+    println("cleaning up");
+}
+fn main() {
+    let i = 0;
+    loop { i += 1; println(i); }
+}
+`},
+	{Name: "infinite-loop-with-a-throwing-kill-handler", Infinite: false, Own: "fatal", TreeOK: true, Source: `event fn kill() {
+    throw("handler failed");
+}
+fn main() {
+    let i = 0;
+    loop { i += 1; println(i); }
+}
+`},
 	{Name: "spawned-finishes-main-loops", Infinite: true, Source: `fn main() {
     spawn w();
     let i = 0;
